@@ -467,7 +467,114 @@ def strip_transparent(e):
         return ("field", ("variant", inner, "Some" if "core::option::Option<" in e[1][1][1] else "Ok"), "0")
     if e[0] == "call" and not isinstance(e[1], tuple) and e[1] in TRANSPARENT_CALLS and len(e[2]) >= 1:
         return strip_transparent(e[2][0])
+    # the two halves of `a.zip(b)`'s payload are the payloads of a and b; the payload of
+    # `x.filter(p)` is the payload of x
+    if e[0] == "field" and str(e[2]) in ("0", "1") and e[1][0] == "field" and e[1][2] == "0" and e[1][1][0] == "variant" and e[1][1][2] == "Some" \
+            and e[1][1][1][0] == "call" and e[1][1][1][1] == ZIP and len(e[1][1][1][2]) == 2:
+        side = strip_transparent(e[1][1][1][2][int(e[2])])
+        if side[0] == "agg" and side[1] == "core::option::Option::Some" and side[2]:
+            return side[2][0]
+        return ("field", ("variant", side, "Some"), "0")
+    if e[0] == "field" and e[2] == "0" and e[1][0] == "variant" and e[1][2] == "Some" and e[1][1][0] == "call" and e[1][1][1] == FILTER and len(e[1][1][2]) == 2:
+        return ("field", ("variant", strip_transparent(e[1][1][2][0]), "Some"), "0")
     return tuple(strip_transparent(x) if isinstance(x, tuple) else x for x in e)
+
+
+ZIP = "core::option::Option::<T>::zip"
+FILTER = "core::option::Option::<T>::filter"
+
+
+def _closure_dnf(crate, key):
+    """DNF (tuples of atoms over the closure's parameters and captures) under which a bool closure
+    returns true, or None"""
+    from .mir import Body
+    accessor_summary(crate, key)
+    raws = crate["_raw_by_key"].get(key)
+    if not raws or len(raws) != 1 or raws[0]["kind"] != "Closure" or len(raws[0]["blocks"]) > 30:
+        return None
+    cb = Body(raws[0], crate)
+    if cb.local_ty(0) != "bool":
+        return None
+    s = Sym(cb)
+    pc = PathCond(cb, s)
+    if pc.back_edges():
+        return None
+    true = set()
+
+    def values(l, want, depth=0):
+        for d in cb.defs().get(l, []):
+            blk, i, kind, node = d
+            if cb.is_cleanup(blk) or kind not in ("assign", "call"):
+                continue
+            e = strip_transparent(s._def_expr(d, 0))
+            w = want
+            while e[0] == "not":
+                e, w = e[1], not w
+            if e[0] == "local" and len(e) == 2 and e[1] != l and depth < 5:
+                for x in values(e[1], w, depth + 1):
+                    yield x
+            else:
+                yield blk, e, w
+
+    try:
+        for blk, e, want in values(0, True):
+            cbool = _const_bool(e[1]) if e[0] == "const" else None
+            if cbool is not None and cbool != want:
+                continue
+            for cs in pc.conditions(blk):
+                if cbool is not None:
+                    true.add(cs)
+                else:
+                    c2 = _add_atom(cs, normalise_atom(e, want))
+                    if c2 is not None:
+                        true.add(c2)
+    except RuntimeError:
+        return None
+    true = _absorb(true)
+    if not true or len(true) > 4 or any(len(d) > 4 for d in true):
+        return None
+    return [tuple(sorted(d, key=repr)) for d in sorted(true, key=repr)]
+
+
+def _option_combinator_alternatives(crate, a):
+    """`a.zip(b).is_some()` is `a.is_some() && b.is_some()`; `x.filter(p).is_some()` is
+    `x.is_some() && p(payload of x)`"""
+    e, v = a
+    if e[0] != "call" or e[1] != "core::option::Option::<T>::is_some" or not isinstance(v, bool) or not e[2]:
+        return None
+    inner = e[2][0]
+    if inner[0] != "call" or not isinstance(inner[1], str):
+        return None
+    IS = lambda x: ("call", "core::option::Option::<T>::is_some", (x,), ())
+    if inner[1] == ZIP and len(inner[2]) == 2:
+        x, y = inner[2]
+        if v:
+            return [((IS(x), True), (IS(y), True))]
+        return [((IS(x), False),), ((IS(y), False),)]
+    if inner[1] == FILTER and len(inner[2]) == 2 and inner[2][1][0] == "closure":
+        from . import resalg as _ra
+        x, cl = inner[2]
+        dnf = _closure_dnf(crate, cl[1])
+        if dnf is None:
+            return None
+        pay = ("field", ("variant", x, "Some"), "0")
+        sub = lambda t_: strip_transparent(_ra._subst_closure(t_, cl[2], [pay]))
+        dnf = [tuple(normalise_atom(sub(x_), y_) if isinstance(y_, bool) else (sub(x_), y_) for (x_, y_) in d) for d in dnf]
+        if v:
+            return [((IS(x), True),) + d for d in dnf]
+        alts = [((IS(x), False),)]
+        neg = [((IS(x), True),)]
+        for d in dnf:
+            nxt = []
+            for partial in neg:
+                for atom in d:
+                    for ng in _negate_atom(atom):
+                        nxt.append(partial + (ng,))
+            neg = nxt
+            if len(neg) > 32:
+                return None
+        return alts + neg
+    return None
 
 
 # ---------------------------------------------------------------------- atoms and path conditions
@@ -561,6 +668,18 @@ def normalise_atom(expr, value):
         if k == "bin" and expr[1] in ("Le", "Ge") and isinstance(value, bool) and (_const_int(expr[2]) is not None or _const_int(expr[3]) is not None):
             # integer comparisons: `a <= n` is `!(a > n)` (floats are left alone: NaN)
             expr, value = ("bin", "Gt" if expr[1] == "Le" else "Lt", expr[2], expr[3]), (not value)
+            continue
+        if k == "bin" and expr[1] == "Lt" and isinstance(value, bool) and _const_int(expr[3]) is not None and _const_int(expr[3]) >= 1 and _const_int(expr[2]) is None:
+            # one spelling for integer thresholds: `a < n` is `!(a > n-1)` (so `len >= 2`, `len > 1`
+            # and a slice pattern `[_, _, ..]` read alike)
+            n = _const_int(expr[3])
+            suffix = expr[3][1][len(str(n)):] if expr[3][1].startswith(str(n)) else ""
+            if expr[3][1].startswith("const "):
+                suffix = expr[3][1][len("const ") + len(str(n)):]
+                new = "const %d%s" % (n - 1, suffix)
+            else:
+                new = "%d%s" % (n - 1, suffix)
+            expr, value = ("bin", "Gt", expr[2], ("const", new)), (not value)
             continue
         if k == "discr":
             inner = expr[1]
@@ -996,6 +1115,9 @@ def predicate_alternatives(crate, a, any_vis=False):
     e, v = a
     if e[0] != "call" or isinstance(e[1], tuple) or not isinstance(v, bool):
         return None
+    comb = _option_combinator_alternatives(crate, a)
+    if comb is not None:
+        return comb
     summ = predicate_dnf(crate, e[1], any_vis)
     if summ is None or summ[0] != len(e[2]):
         return None
